@@ -24,7 +24,8 @@ RULE = (
     "full product expected_input(3) x approximator{None,default,cc3d,scipy} x matcher{None, thr IoU .5, thr Dice .3 many-to-one, thr ASSD 1.0, merge IoU .5, merge Dice .7, merge ASSD 2.0} x handler{None, asymmetric A, asymmetric B with "
     "empty_list_std ZERO, default tables with empty_list_std ONE} x groups{None, plain, plain+merge, plain+single, a group literally named 'Ungrouped' + a merge group} x instance metrics(3) x global metrics(3) x decision{none, IoU .5, Dice 1/3} x flags (quick: 2 joint settings, thorough: 2^3): "
     "save -> load -> structural equality -> save again (byte identity); behavioural equality on 6 probe inputs for the sub-product with default metric lists and flags; components alone: 625 MetricZeroTPEdgeCaseHandling, "
-    "5x4 handlers, matchers, approximators, LabelGroup/LabelMergeGroup/SegmentationClassGroups variants, every enum member; shipped configs by path, by name, twice, after mutating the first loaded object. "
+    "5x4 handlers, matchers, approximators, LabelGroup/LabelMergeGroup/SegmentationClassGroups variants, every enum member; shipped configs by path, by name, twice, after mutating the first loaded object; 46 group names that YAML 1.1/1.2 would read as non-strings or that need quoting (n, y, no, on, off, yes, null, true, ~, 1, 1.5, 0x1f, 1e3, .inf, dates, flow/anchor/tag indicators, leading/trailing blanks, empty, tab, newline) alone and nested in an UNMATCHED / MATCHED evaluator; "
+    "48 spread configurations x 4 setter variants (set_log_group_times, _set_instance_matcher, _set_instance_approximator, all): re-configured after construction, saved, loaded, compared (settings, bytes, behaviour), then the loaded object re-configured and saved again. "
     "non-trivial = at least two fields differ from their defaults; distinct by configuration"
 )
 ASSUMPTIONS = ["ruamel.yaml is trusted to write/read what it is given", "structural equality ignores caches (cached metric keys)", "sensitivity of every option field is verified on the probes in each run (otherwise the run reports itself vacuous)"]
@@ -45,6 +46,12 @@ FLAGS_T = tuple(itertools.product((False, True), repeat=3))
 DIMS = lambda tier: (len(ITYPES), len(APPROX), len(MATCHERS), len(HANDLERS), len(GROUPS), len(IMETS), len(GMETS), len(DECS), len(FLAGS_Q if tier == "quick" else FLAGS_T))
 
 
+# group names that YAML (1.1 or 1.2) would read as something other than a string if written plainly, or that need quoting
+NAMES = ["n", "y", "no", "on", "off", "yes", "null", "true", "false", "~", "1", "1.5", "0x1f", "1e3", "0o17", "1_000", ".inf", ".nan", "2024-01-01", "a: b", "a #b", "-x", "*a", "&a", "!t", "%p", "@q", "`r",
+         "'q'", '"dq"', " lead", "trail ", "", "a,b", "[x]", "{x}", "|", ">", "?", "=", "<<", "\u00e9", "t\tb", "a\nb", "t", "m"]
+N_SETTER_BASES = 48
+
+
 def n_configs(tier):
     return math.prod(DIMS(tier))
 
@@ -56,6 +63,10 @@ def blocks(tier):
     for lo, hi in sc.ranges(625, 125):
         B.append(("zerotp", lo, hi))
     B.append(("components",))
+    for lo, hi in sc.ranges(len(NAMES), 6):
+        B.append(("names", lo, hi))
+    for lo, hi in sc.ranges(N_SETTER_BASES, 4):
+        B.append(("setters", tier, lo, hi))
     B.append(("shipped",))
     B.append(("sens",))
     return B
@@ -70,6 +81,13 @@ def run_block(block, acc):
     elif kind == "zerotp":
         for i in range(block[1], block[2]):
             run_case({"kind": "zerotp", "i": i}, acc)
+    elif kind == "names":
+        for i in range(block[1], block[2]):
+            run_case({"kind": "names", "i": i}, acc)
+    elif kind == "setters":
+        for i in range(block[2], block[3]):
+            for v in range(4):
+                run_case({"kind": "setters", "tier": block[1], "b": i, "v": v}, acc)
     else:
         run_case({"kind": kind}, acc)
 
@@ -235,6 +253,10 @@ def run_case(case, acc):
         return _zerotp(case, acc)
     if kind == "components":
         return _components(case, acc)
+    if kind == "names":
+        return _names(case, acc)
+    if kind == "setters":
+        return _setters(case, acc)
     if kind == "shipped":
         return _shipped(case, acc)
     if kind == "sens":
@@ -283,6 +305,110 @@ def _cfg(case, acc):
         acc.count("behaviour_checked")
     if ok:
         acc.ok()
+
+
+def _check_evaluator(acc, case, ev, itype, label):
+    """save -> load -> settings, re-save and behaviour must agree with the live object `ev`"""
+    from panoptica import Panoptica_Evaluator
+
+    acc.step(3)
+    try:
+        loaded, t1, t2 = roundtrip(ev, Panoptica_Evaluator)
+    except Exception as e:
+        acc.violation(f"C19:roundtrip_raised:{type(e).__name__}", case, f"{label}: save/load raised {e!r}")
+        return None
+    acc.state("ev", label, t1)
+    ok = True
+    s0, s1 = struct(ev), struct(loaded)
+    if s0 != s1:
+        diff = _first_diff(s0, s1)
+        acc.violation(f"C19:settings_differ:{diff[0]}", case, f"{label}: loaded evaluator differs from the saved one at {diff[1]}")
+        ok = False
+    if t1 != t2:
+        acc.violation("C19:resave_differs", case, f"{label}: saving the loaded evaluator does not reproduce the file\n--- first\n{t1}\n--- second\n{t2}")
+        ok = False
+    acc.step(2 * len(PROBES[itype]))
+    if not same_behaviour(behaviour(ev, itype), behaviour(loaded, itype)):
+        acc.violation("C19:behaviour_differs", case, f"{label}: the loaded evaluator gives different results on the probe inputs than the evaluator that was saved")
+        ok = False
+    if ok:
+        acc.ok()
+    return loaded
+
+
+def _names(case, acc):
+    from panoptica import Panoptica_Evaluator
+    from panoptica.utils.label_group import LabelGroup, LabelMergeGroup
+    from panoptica.utils.segmentation_class import SegmentationClassGroups
+
+    from ..lib import ITYPE
+
+    name = NAMES[case["i"]]
+    acc.case("names", case["i"])
+    acc.nontriv("names", case["i"])
+
+    def groups():
+        return SegmentationClassGroups({name: LabelGroup([1]), "zz": LabelMergeGroup([2, 3])})
+
+    try:
+        g = groups()
+    except Exception:
+        acc.count("invalid_at_construction")
+        return
+    _component(acc, case, g, SegmentationClassGroups, f"SegmentationClassGroups with a group named {name!r}")
+    # the group names must survive (as the keys of the result dict do)
+    try:
+        loaded, _, _ = roundtrip(groups(), SegmentationClassGroups)
+        if list(loaded.keys()) != list(g.keys()):
+            acc.violation("C19:group_names_differ", case, f"group names {list(g.keys())} come back as {list(loaded.keys())}")
+    except Exception as e:
+        acc.violation(f"C19:component_raised:SegmentationClassGroups", case, f"group named {name!r}: {e!r}")
+    for itype in ("UNMATCHED", "MATCHED"):
+        ev = Panoptica_Evaluator(expected_input=ITYPE[itype], instance_matcher=make_matcher(["thr", "IOU", 0.5, False]) if itype == "UNMATCHED" else None, segmentation_class_groups=groups())
+        _check_evaluator(acc, {**case, "itype": itype}, ev, itype, f"{itype} evaluator with a class group named {name!r}")
+
+
+def _apply_setters(ev, v, flags):
+    """re-configure a live evaluator through its setters (v selects which)"""
+    if v in (0, 3):
+        ev.set_log_group_times(not flags[0])
+    if v in (1, 3):
+        ev._set_instance_matcher(make_matcher(["merge", "DSC", 0.25]))
+    if v in (2, 3):
+        ev._set_instance_approximator(make_approximator("scipy"))
+
+
+def _setters(case, acc):
+    """an evaluator that was re-configured after construction (and one re-configured after loading) must be saved as it is now"""
+    tier, b, v = case["tier"], case["b"], case["v"]
+    n = n_configs(tier)
+    i = (b * (n // N_SETTER_BASES) + 5 * b + 1) % n
+    acc.case("setters", tier, b, v)
+    try:
+        ev, desc, _ = build(tier, i)
+    except Exception:
+        acc.count("invalid_at_construction")
+        return
+    it = decode(tier, i)[0]
+    flags = desc["flags"]
+    acc.nontriv("setters", tier, b, v)
+    try:
+        _apply_setters(ev, v, flags)
+    except Exception as e:
+        acc.count("setter_rejected")
+        return
+    what = {0: "set_log_group_times", 1: "_set_instance_matcher", 2: "_set_instance_approximator", 3: "all three setters"}[v]
+    loaded = _check_evaluator(acc, case, ev, ITYPES[it], f"configuration {desc} re-configured through {what} after construction")
+    if loaded is None:
+        return
+    # second generation: re-configure the loaded object differently and save again
+    try:
+        loaded.set_log_group_times(flags[0])
+        loaded._set_instance_matcher(make_matcher(["thr", "IOU", 0.75, True]))
+    except Exception:
+        acc.count("setter_rejected")
+        return
+    _check_evaluator(acc, {**case, "generation": 2}, loaded, ITYPES[it], f"configuration {desc} loaded from file, then re-configured through its setters")
 
 
 def _first_diff(a, b, path="evaluator"):
